@@ -9,8 +9,9 @@ sys.path.insert(0, os.path.dirname(os.path.abspath(__file__)))
 from common import log, load_known, known_match, write_evidence, WORK, VERIF, ToolError
 
 # which engines bear on which property
-RT_PROPS = {"C01", "C02", "C03", "C04", "C05", "C06", "C07", "C08", "C09", "C10", "C11", "C18", "C19"}
+RT_PROPS = {"C01", "C02", "C03", "C04", "C05", "C06", "C07", "C08", "C09", "C10", "C11", "C15", "C16", "C18", "C19"}
 VERDICT_PROPS = {"C10", "C11", "C12", "C13", "C14"}
+SURFACE_PROPS = {"C15", "C19"}
 LEVEL = {p: "model_checking" for p in ["C01", "C02", "C03", "C04", "C05", "C06", "C07", "C08", "C09", "C10", "C11",
                                        "C12", "C13", "C14", "C15", "C18", "C19"]}
 LEVEL.update({"C16": "exploration", "C17": "exploration"})
@@ -194,6 +195,73 @@ def main():
                 nviol += 1
         assumptions += ["the case renderer (tools/render_verdict.py) renders the abstract case faithfully; guarded by the control build of every case without the derive, whose outcome the specification predicts",
                         "C12/C13 quantify over syntax: the fault catalogues in spec/Verdict.tla and spec/Attr.tla are finite samples"]
+    if prop in SURFACE_PROPS:
+        import engine_surface
+        res = engine_surface.results(tier, seed)
+        n = res["n_cases"]
+        coverage["states"] += res["tlc"]["stimuli"]["states"] + res["tlc"]["judge"]["states"]
+        coverage["transitions"] += res["tlc"]["stimuli"]["transitions"] + res["tlc"]["judge"]["transitions"]
+        coverage["traces_validated_against_impl"] += n
+        coverage["evaluations"] += n
+        coverage["distinct_nontrivial"] += n
+        coverage["samples"] += res["samples"]
+        coverage["engines"]["surface"] = {"cases": n, "not_built": res["not_built"], "tlc": res["tlc"], "wall_s": res.get("engine_wall_s")}
+        groups = collections.OrderedDict()
+        for v in res["violations"]:
+            # the surface specification decides name / visibility / kind (C15) and const-ness (documented signature, C19)
+            if prop not in v["props"] and not (prop == "C19" and "C15" in v["props"] and "const" in v["why"]):
+                continue
+            g = groups.setdefault(v["why"], {"count": 0, "first": v})
+            g["count"] += 1
+        for why, g in groups.items():
+            v = g["first"]
+            facts = {"engine": "surface", "why": why, "attrs": v["attrs"], "enumvis": v["enumvis"], "msg": v["msg"]}
+            k = known_match(prop, facts, known)
+            if k:
+                known_lines.append(f"KNOWN-FINDING: property={prop} {k.get('what', '')} ({g['count']} cases)")
+                continue
+            d = os.path.join(WORK, "replay")
+            os.makedirs(d, exist_ok=True)
+            hsh = hashlib.sha256(json.dumps([prop, why]).encode()).hexdigest()[:10]
+            path = os.path.join(d, f"{prop}-{hsh}.json")
+            json.dump({"property": prop, "engine": "surface", "why": why, "occurrences": g["count"], "rust": v["rust"],
+                       "enum_visibility": v["enumvis"], "observed_by_rustdoc": v["observed"],
+                       "how": "rustdoc JSON of the item above (derive from /repo) does not satisfy Surface!SurfaceOK (spec/Surface.tla)"},
+                      open(path, "w"), indent=1)
+            viol_lines.append((f"VIOLATION property={prop} replay={path}", f"{why} ({g['count']} cases) e.g. [{v['enumvis']}] {v['attrs'][:160]}"))
+            nviol += 1
+        assumptions += ["rustdoc JSON (format 57, RUSTC_BOOTSTRAP=1 on the pinned stable toolchain) reports every item, visibility, const-ness and trait impl faithfully"]
+    if prop == "C17":
+        import engine_expand
+        res = engine_expand.results(tier, seed)
+        n = res["n_cases"] * res["processes"]
+        coverage["states"] += res["tlc"]["judge"]["states"]
+        coverage["transitions"] += res["tlc"]["judge"]["transitions"]
+        coverage["traces_validated_against_impl"] += res["n_cases"]
+        coverage["evaluations"] += n
+        coverage["distinct_nontrivial"] += res["distinct"]
+        coverage["samples"] += res["samples"]
+        coverage["engines"]["expand"] = {"cases": res["n_cases"], "fresh_compiler_processes_per_case": res["processes"], "tlc": res["tlc"],
+                                         "wall_s": res.get("engine_wall_s")}
+        if res["violations"]:
+            v = min(res["violations"], key=lambda x: x["n"])
+            facts = {"engine": "expand", "attrs": v["attrs"], "repr": v["repr"]}
+            k = known_match(prop, facts, known)
+            if k:
+                known_lines.append(f"KNOWN-FINDING: property={prop} {k.get('what', '')}")
+            else:
+                d = os.path.join(WORK, "replay")
+                os.makedirs(d, exist_ok=True)
+                path = os.path.join(d, f"{prop}-expansion.json")
+                json.dump({"property": prop, "engine": "expand", "occurrences": len(res["violations"]), "rust": v["rust"], "digests": v["digests"],
+                           "cases": [x["case"] for x in res["violations"]][:30],
+                           "how": "RUSTC_BOOTSTRAP=1 rustc -Zunpretty=expanded of the item above in %d fresh processes gives different code" % res["processes"]},
+                          open(path, "w"), indent=1)
+                viol_lines.append((f"VIOLATION property={prop} replay={path}",
+                                   f"{len(res['violations'])} of {res['n_cases']} declarations expand differently in different compiler processes, e.g. {v['n']} variants {v['attrs'][:120]}"))
+                nviol += 1
+        assumptions += ["a dependence on per-process state shows up as different output among 8 (quick) / 32 (thorough) fresh rustc processes; a dependence that needs a rarer trigger is not seen",
+                        "digest of the -Zunpretty=expanded text per case module"]
     coverage["rule"] = ("cases = derived enums (declaration x configuration) generated from TLC-enumerated discriminant sets and TLC state-graph "
                         "operation paths; one trace per case, validated event by event by TLC against spec/TraceRt.tla; "
                         "distinct_nontrivial = number of distinct cases with at least one event bearing on this property")
